@@ -135,7 +135,7 @@ def run_property(prop, tier, jobs, level_note='', assumptions=(), outside=(), wo
     for (j, s), r in zip(samples, sres):
         if r.get('error') or r.get('findings') or not r.get('ok', True):
             mismatches.append((j['id'], s, r))
-        elif r.get('outcome') != json.loads(json.dumps(s['outcome'])):
+        elif not j.get('loose') and r.get('outcome') != json.loads(json.dumps(s['outcome'])):
             mismatches.append((j['id'], s, r))
         else:
             validated += 1
